@@ -33,7 +33,7 @@ def random_choice(array, probs=None):
     # Sample a random value from using pdf
     rdm_num = random.random()
     i, p = 0, probs[0]
-    while rdm_num > p:
+    while rdm_num >= p and i < len(probs) - 1:
         i += 1
         p += probs[i]
     return array[i]
